@@ -357,6 +357,28 @@ def builder_of(markup):
     return None
 
 
+ATTR_SETS = ['id=x1 class="c d"', "hidden", 'style="display:none"', 'data="fig.svg" type="image/svg+xml"', 'data="fig.png"',
+             'type="image/png" data="x"', 'src="pic.jpg"', 'src="movie.mp4" type="video/mp4"', 'type="application/pdf" data="doc.pdf" width=1 height=1',
+             'type="text/javascript" src="a.js"', 'type="text/css" media="screen"', 'type="application/x-shockwave-flash" data="m.swf"',
+             'code="A.class" archive="a.jar" codebase="."', 'srcdoc="&lt;p&gt;x&lt;/p&gt;" src="about:blank"',
+             'DATA="FIG.SVG" TYPE="IMAGE/SVG+XML"', "data=fig.svg?v=1#top", 'href="fig.png" xlink:href="fig.png" name=n value=v', 'type="image" src="b.gif"']
+
+
+def attribute_docs(attr_sets=None, removable=("noscript", "iframe", "object", "applet", "script", "style", "embed")):
+    """Removable elements WITH ATTRIBUTES (their own standard ones -- data / type / src / code / srcdoc / media -- with image, media,
+    plug-in and script values, in both cases, with query / fragment), nested in themselves, with element content and a tail:
+    a removed element is removed whatever its start tag carries."""
+    docs = []
+    for r in removable:
+        for a in (attr_sets or ATTR_SETS):
+            if r == "embed":
+                docs.append(f"<p>VISa</p><{r} {a}>VISb<p>VISc</p>")
+                docs.append(f"<p>VISa</p><noscript>HIDa<{r} {a}>HIDb</noscript><p>VISb</p>")
+            else:
+                docs.append(f"<p>VISa</p><{r} {a}>HIDa<p>HIDb</p><{r} {a}>HIDc</{r}>HIDd</{r}><p>VISb</p>")
+    return docs
+
+
 def boundary_like_docs():
     """Lines INSIDE removed content that read like a MIME delimiter (`--` + RFC 2046 boundary characters only): a ruler of
     dashes in a comment, a `-- remark` line in a script template, a CSS custom property split after its colon.  In a proper
@@ -668,6 +690,7 @@ def grammar():
     docs += parser_error_docs()
     docs += long_prefix_docs()
     docs += line_start_docs()
+    docs += attribute_docs()
     docs += deep_docs()
     return docs
 
